@@ -72,6 +72,9 @@ Compliant == st.scn.mode = "compliant"
 \* ---- application settings: what the client must expose and send (u_handshake_client.go utlsReadServerParameters,
 \*      sendClientEncryptedExtensions); the client's EncryptedExtensions is read by the hooked server (H7)
 ClientSettingsFor(scn, proto) == IF scn.client_alps # "has" THEN <<>>
+                                 ELSE IF "client_alps_len" \in DOMAIN scn /\ scn.client_alps_len > 0
+                                         /\ proto \in {<<104,50>>, <<104,116,116,112,47,49,46,49>>}
+                                 THEN [i \in 1..scn.client_alps_len |-> (7 * (i - 1) + 3) % 256]
                                  ELSE IF proto = <<104,50>> THEN <<67,76,78,84>>
                                  ELSE IF proto = <<104,116,116,112,47,49,46,49>> THEN <<67,76,78,49>> ELSE <<>>
 ClientEEAlps(raw, cp) == LET ee == ParseEE(raw) IN
@@ -82,6 +85,9 @@ AlpsProblems(scn, ev, v) ==
   \cup (IF ev.cok /\ v = 772 /\ ClientEEAlps(ev.client_ee, scn.alps_cp) # ClientSettingsFor(scn, ev.cs.proto)
         THEN {"client-settings-not-sent-as-configured"} ELSE {})
   \cup (IF ev.cok /\ v < 772 /\ ev.peer_alps # <<>> THEN {"settings-accepted-below-1.3"} ELSE {})
+  \* the server's flight was acceptable and complete, the client answered, and the (in-tree, self-consistent) server refuses
+  \* that answer with an alert: the client's second flight (its EncryptedExtensions with the settings, Finished) is wrong
+  \cup (IF ~ev.cok /\ v = 772 /\ st.must = "" /\ FlightComplete /\ ev.corigin = "alert" THEN {"server-refused-client-flight"} ELSE {})
 OnResult(ev) ==
   /\ st' = [st EXCEPT !.done = TRUE]
   /\ rej' = rej
